@@ -99,6 +99,38 @@ class Kinds:
                         lists.add(d.name)
         return rows
 
+    def param_kind(self, f, pname):
+        """a parameter that receives walk states (accessor entries, -1 = none) at every call site inside the package is an
+        entry: tests on it are liveness tests"""
+        memo = self.__dict__.setdefault('_pk', {})
+        busy = self.__dict__.setdefault('_pk_busy', set())
+        key = (f.fq, pname)
+        if key in memo:
+            return memo[key]
+        if key in busy:
+            return None
+        busy.add(key)
+        try:
+            return self._param_kind(f, pname, memo, key)
+        finally:
+            busy.discard(key)
+
+    def _param_kind(self, f, pname, memo, key):
+        ctx = getattr(self, 'ctx', None)
+        if ctx is None or f.name in getattr(self.p, 'exports', {}) and False:
+            return None
+        try:
+            sites = ctx.param_arg_terms(f, pname)
+        except Exception:
+            sites = []
+        kinds = set()
+        for caller, nd, t in sites:
+            kinds.add(self.kind(t, caller))
+        if sites and kinds == {'ENTRY'}:
+            memo[key] = 'ENTRY'          # only positive answers are kept: the array kinds of the callers may not be known yet
+            return 'ENTRY'
+        return None
+
     def _summarise(self, fq, f):
         res = None
         for nd in f.stmts(ast.Return):
@@ -123,6 +155,8 @@ class Kinds:
                 return 'ACC'
             if t[1] in self._rows.get(f.fq, ()):
                 return 'ROW'
+            if t[2] == 'P':
+                return self.param_kind(f, t[1])
             return None
         if acc_alloc(t) is not None:
             return 'ACC'
